@@ -72,11 +72,14 @@ def _loop_syms(v):
 
 
 def _owner_loop_idiom(fb, ob):
-    """for idx in (0..toks.len()).rev() { match toks[idx] { `)` => cnt -= 1, `(` => cnt += 1, Op if cnt == 1 => return Some(idx), _ => () } } None"""
+    """The owner search as an explicit loop from the right:
+         for idx in (0..toks.len()).rev() { match toks[idx] { `)` => cnt -= 1, `(` => cnt += 1, Op if cnt == 1 => return Some(idx), _ => () } } None
+       or index-driven:  let mut idx = toks.len(); while idx > 0 { idx -= 1; .. same step on toks[idx] .. } None
+    (the count may be updated before or after the operator test: an operator token does not change it)."""
     allp = Interp(fb, _P()).run(ob, [Sym("toks")])
     if any(p.status not in ("return", "loop-pruned", "unreachable") for p in allp):
         return False, "shape"
-    it = cnt = None
+    it = cnt = ixl = None
     for p in allp:
         for t in loops.trips(p, ob["path"], 0):
             if t.general:
@@ -85,40 +88,58 @@ def _owner_loop_idiom(fb, ob):
                 sv = rel.cstr(v)
                 if re.match(r"^(std::iter::IntoIterator::into_iter\()?std::iter::Iterator::rev\(Range\{start: 0_usize, end: core::slice::<impl \[T\]>::len\(toks\)\}\)\)?$", sv):
                     it = k
+                elif sv == "core::slice::<impl [T]>::len(toks)":
+                    ixl = k
                 elif rel.const_int(v) == 0 and isinstance(v, Const) and (v.ty or "").startswith("i"):
                     cnt = k
-    if it is None or cnt is None:
-        return False, "no loop over the reversed index range with a counter starting at 0"
+    if cnt is None or (it is None and ixl is None):
+        return False, "no loop from the last token down to the first with a counter starting at 0"
     seen = set()
     for p in allp:
         for t in loops.trips(p, ob["path"], 0):
-            if not t.general or it not in t.pre or cnt not in t.pre:
+            if not t.general or cnt not in t.pre:
                 continue
-            item = ".0(as:Some(std::iter::Iterator::next(%s)))" % rel.cstr(t.pre[it])
-            tok = "index(toks, %s)" % item
             C = rel.cstr(t.pre[cnt])
+            if it is not None:
+                if it not in t.pre:
+                    continue
+                nxt = "std::iter::Iterator::next(%s)" % rel.cstr(t.pre[it])
+                item = ".0(as:Some(%s))" % nxt
+                cont = ("discr(%s)" % nxt, "Some", "None")
+            else:
+                if ixl not in t.pre:
+                    continue
+                I = rel.cstr(t.pre[ixl])
+                item = "binop:Sub(%s, 1_usize)" % I
+                cont = (None, None, None)
+            tok = "index(toks, %s)" % item
             kind = sub = None
             eq1 = None
+            exited = False
             for d in t.decisions:
                 sd = rel.cstr(d[1])
-                if sd == "discr(std::iter::Iterator::next(%s))" % rel.cstr(t.pre[it]):
-                    if d[2] == "None":
-                        kind = "exit"
+                if it is not None and sd == cont[0]:
+                    exited = d[2] == "None"
+                elif it is None and sd in ("binop:Gt(%s, 0_usize)" % I, "binop:Ne(%s, 0_usize)" % I):
+                    exited = d[2] is False
+                elif it is None and sd in ("binop:Eq(%s, 0_usize)" % I, "binop:Le(%s, 0_usize)" % I):
+                    exited = d[2] is True
                 elif sd == "discr(%s)" % tok:
                     kind = d[2]
                 elif sd == "discr(.0(as:Paren(%s)))" % tok:
                     sub = d[2]
-                elif sd in ("binop:Eq(%s, 1_i32)" % C, "binop:Eq(1_i32, %s)" % C):
+                elif sd in ("binop:Eq(%s, 1_i32)" % C, "binop:Eq(1_i32, %s)" % C, "binop:Eq(binop:Add(%s, 0_i32), 1_i32)" % C):
                     eq1 = bool(d[2])
                 else:
                     return False, "a step of the scan depends on %s" % sd[:100]
-            if kind == "exit":
+            if exited:
                 if not (p.status == "return" and t.post is None and rel.cstr(p.result) == "Option::None"):
                     return False, "the exhausted scan does not return None"
                 seen.add("none")
                 continue
+            if it is None and t.post is not None and rel.cstr(t.post[ixl]) != item:
+                return False, "the index is not lowered by one per step"
             if t.post is None:
-                # leaves the loop: only with the operator found at count 1
                 if kind == "Op" and eq1 is True and p.status == "return" and rel.cstr(p.result) == "Option::Some{0: %s}" % item:
                     seen.add("found")
                     continue
@@ -129,7 +150,7 @@ def _owner_loop_idiom(fb, ob):
             elif kind == "Paren" and sub == "Close":
                 want, tag = ("binop:Sub(%s, 1_i32)" % C, "binop:Add(%s, -1_i32)" % C), "close"
             else:
-                want, tag = (C,), "other"
+                want, tag = (C, "binop:Add(%s, 0_i32)" % C), "other"
                 if kind == "Op" and eq1 is not False:
                     return False, "an operator token at count 1 does not end the scan"
             if post not in want:
